@@ -86,8 +86,57 @@ type RunCfg struct {
 }
 
 type renderer struct {
-	consts map[string]float64
+	consts map[string]any
 	sb     strings.Builder
+}
+
+// goNum converts an exactly representable number to the Go value of the named kind.
+func goNum(kind string, f float64) (any, error) {
+	var v any
+	var back float64
+	switch kind {
+	case "int":
+		x := int(f)
+		v, back = x, float64(x)
+	case "int8":
+		x := int8(f)
+		v, back = x, float64(x)
+	case "int16":
+		x := int16(f)
+		v, back = x, float64(x)
+	case "int32":
+		x := int32(f)
+		v, back = x, float64(x)
+	case "int64":
+		x := int64(f)
+		v, back = x, float64(x)
+	case "uint":
+		x := uint(f)
+		v, back = x, float64(x)
+	case "uint8":
+		x := uint8(f)
+		v, back = x, float64(x)
+	case "uint16":
+		x := uint16(f)
+		v, back = x, float64(x)
+	case "uint32":
+		x := uint32(f)
+		v, back = x, float64(x)
+	case "uint64":
+		x := uint64(f)
+		v, back = x, float64(x)
+	case "float32":
+		x := float32(f)
+		v, back = x, float64(x)
+	case "float64":
+		v, back = f, f
+	default:
+		return nil, fmt.Errorf("gonum: unknown kind %q", kind)
+	}
+	if back != f {
+		return nil, fmt.Errorf("gonum: %v is not a value of kind %s", f, kind)
+	}
+	return v, nil
 }
 
 func (r *renderer) lit(raw json.RawMessage) error {
@@ -148,6 +197,27 @@ func (r *renderer) lit(raw json.RawMessage) error {
 		r.consts[name] = f
 		r.sb.WriteString(name)
 		return nil
+	case "gonum":
+		// a Number handed over by the embedding program as a Go value of the given kind (Otto.Set)
+		var g struct {
+			Kind string  `json:"kind"`
+			N    *num.N `json:"n"`
+		}
+		if err := json.Unmarshal(raw, &g); err != nil {
+			return err
+		}
+		f, err := g.N.Float()
+		if err != nil {
+			return err
+		}
+		gv, err := goNum(g.Kind, f)
+		if err != nil {
+			return err
+		}
+		name := fmt.Sprintf("K%d", len(r.consts))
+		r.consts[name] = gv
+		r.sb.WriteString(name)
+		return nil
 	case "cobj":
 		var o struct {
 			ID int             `json:"id"`
@@ -195,9 +265,27 @@ func (r *renderer) lit(raw json.RawMessage) error {
 	return nil
 }
 
-// Render assembles the JavaScript text of a case.
+// Render assembles the JavaScript text of a case (constants are float64; a case with Go-typed
+// constants needs RenderAny).
 func Render(parts []json.RawMessage) (string, map[string]float64, error) {
-	r := &renderer{consts: map[string]float64{}}
+	src, consts, err := RenderAny(parts)
+	if err != nil {
+		return "", nil, err
+	}
+	out := make(map[string]float64, len(consts))
+	for k, v := range consts {
+		f, ok := v.(float64)
+		if !ok {
+			return "", nil, fmt.Errorf("Render: constant %s is a Go value of type %T (use RenderAny)", k, v)
+		}
+		out[k] = f
+	}
+	return src, out, nil
+}
+
+// RenderAny assembles the JavaScript text of a case; constants are set into the runtime as the Go values given.
+func RenderAny(parts []json.RawMessage) (string, map[string]any, error) {
+	r := &renderer{consts: map[string]any{}}
 	for _, p := range parts {
 		var s string
 		if json.Unmarshal(p, &s) == nil {
@@ -254,7 +342,7 @@ func newVM(prelude string) (*otto.Otto, error) {
 }
 
 // Eval runs src on the box's runtime and returns the outcome JSON.
-func (b *vmBox) eval(prelude string, perVM int, src string, consts map[string]float64) (out string, err error) {
+func (b *vmBox) eval(prelude string, perVM int, src string, consts map[string]any) (out string, err error) {
 	defer func() {
 		if r := recover(); r != nil {
 			b.vm = nil
@@ -364,7 +452,7 @@ func Check(c *core.Ctx, spec *Spec) (map[string]any, []string, error) {
 					atomic.AddInt64(&nSkipped, 1)
 					continue
 				}
-				src, consts, err := Render(l.Js)
+				src, consts, err := RenderAny(l.Js)
 				if err != nil {
 					firstErr.CompareAndSwap(nil, fmt.Errorf("render: %v: %s", err, raw[:min(len(raw), 300)]))
 					continue
